@@ -83,11 +83,27 @@ func libraryGoroutines() []string {
 	n := runtime.Stack(buf, true)
 	var out []string
 	for _, g := range strings.Split(string(buf[:n]), "\n\n") {
-		if core.StackHasPogreb(g) && !strings.Contains(g, "pvh/internal/checks.") {
+		// goroutines STARTED by the library (whatever they call, e.g. the harness' yield callback), and goroutines with a
+		// library frame that were not started by the harness
+		if strings.Contains(g, "created by github.com/akrylysov/pogreb") ||
+			(core.StackHasPogreb(g) && !strings.Contains(g, "pvh/internal/checks.")) {
 			out = append(out, g)
 		}
 	}
 	return out
+}
+
+// maintenanceStraggler returns the stack of a goroutine started by the library that is inside Compact or Sync.
+func maintenanceStraggler() string {
+	buf := make([]byte, 1<<21)
+	n := runtime.Stack(buf, true)
+	for _, g := range strings.Split(string(buf[:n]), "\n\n") {
+		if strings.Contains(g, "created by github.com/akrylysov/pogreb") &&
+			(strings.Contains(g, "pogreb.(*DB).compact(") || strings.Contains(g, "pogreb.(*DB).Compact(") || strings.Contains(g, "pogreb.(*DB).Sync(")) {
+			return g
+		}
+	}
+	return ""
 }
 
 type ival struct {
@@ -190,10 +206,10 @@ func runC10(c *core.Ctx) {
 		hookMu.Lock()
 		us := hookRng.Intn(100)
 		hookMu.Unlock()
-		if closeCalled.Load() && !closed.Load() && slowYields.Add(1) < 150 {
+		if closeCalled.Load() && slowYields.Add(1) < 100 {
 			// a maintenance task in flight while Close is running is kept in flight: Close has to wait for the
 			// background worker, and whatever Close does not wait for is still running when it returns
-			time.Sleep(2 * time.Millisecond)
+			time.Sleep(8 * time.Millisecond)
 			return
 		}
 		if us > 50 {
@@ -212,6 +228,8 @@ func runC10(c *core.Ctx) {
 	var progress []atomic.Int64 = make([]atomic.Int64, nworkers)
 	var wg sync.WaitGroup
 	var afterCloseFailed, afterCloseOps, beforeCloseOps, sharedCalls, bigPuts atomic.Int64
+	var bgInFlight atomic.Int64
+	stragglerAtClose := ""
 	closeDone := make(chan struct{})
 	var closeErr error
 	var closeT0, closeT1 int64
@@ -219,8 +237,25 @@ func runC10(c *core.Ctx) {
 		if closeCalled.CompareAndSwap(false, true) {
 			go func() {
 				closeT0 = clock.Tick()
+				if maintenanceStraggler() != "" {
+					bgInFlight.Add(1)
+				}
 				closeErr = db.Close()
 				closeT1 = clock.Tick()
+				// Close has just returned: a goroutine STARTED by the database must not be inside maintenance now. (A worker
+				// that is merely finishing after it signalled the wait group has no Compact/Sync frame any more.)
+				if os.Getenv("PVH_DEBUG_C10") != "" {
+					buf := make([]byte, 1<<21)
+					n := runtime.Stack(buf, true)
+					for _, g := range strings.Split(string(buf[:n]), "\n\n") {
+						if strings.Contains(g, "created by github.com/akrylysov/pogreb") {
+							fmt.Fprintf(os.Stderr, "DEBUG library goroutine at Close return:\n%s\n", g)
+						}
+					}
+				}
+				if g := maintenanceStraggler(); g != "" {
+					stragglerAtClose = g
+				}
 				closed.Store(true)
 				close(closeDone)
 			}()
@@ -348,6 +383,12 @@ func runC10(c *core.Ctx) {
 					m = "Sync"
 					err = db.Sync()
 				case x < 89:
+					if bg && r.Intn(6) != 0 {
+						// with the background worker on, user-invoked compactions are rare so that the worker's own get to run
+						m = "Has"
+						_, err = db.Has(key)
+						break
+					}
 					m = "Compact"
 					_, err = db.Compact()
 					if pogreb.VerifIsBusy(err) {
@@ -450,20 +491,18 @@ func runC10(c *core.Ctx) {
 		return
 	}
 	// right after Close returned and every caller joined: no goroutine of the database may still be doing maintenance
-	time.Sleep(20 * time.Millisecond)
-	for _, g := range libraryGoroutines() {
-		if strings.Contains(g, "pogreb.(*DB).Compact") || strings.Contains(g, "pogreb.(*DB).compact") || strings.Contains(g, "pogreb.(*DB).Sync") || strings.Contains(g, "startBackgroundWorker") {
-			c.Violation("goroutine-left-running", fmt.Sprintf("a goroutine started by the database is still running maintenance 20 ms after Close returned and all callers joined (fs %s, bg worker %v)", fsk, bg),
-				map[string]interface{}{"stack": g})
-			core.SetYield(nil)
-			return
-		}
+	if stragglerAtClose != "" {
+		c.Violation("goroutine-left-running", fmt.Sprintf("when Close returned, a goroutine started by the database was still running maintenance (fs %s, bg worker %v)", fsk, bg),
+			map[string]interface{}{"stack": stragglerAtClose})
+		core.SetYield(nil)
+		return
 	}
 	core.SetYield(nil)
 	c.Stat("ops_before_close", beforeCloseOps.Load())
 	c.Stat("ops_after_close", afterCloseOps.Load())
 	c.Stat("ops_after_close_failed", afterCloseFailed.Load())
 	c.Stat("shared_iterator_calls", sharedCalls.Load())
+	c.Stat("bg_maintenance_in_flight_when_close_was_called", bgInFlight.Load())
 	c.Stat("puts_of_256KiB_values", bigPuts.Load())
 	if v := violated.Load(); v != nil {
 		p := v.([2]string)
